@@ -178,6 +178,35 @@ func H_clear_incr_clear_incr() {
 `)
 	fam.Instances = append(fam.Instances, Instance{Func: "H_clear_full_incr_remove", Stratum: "sequence", Desc: "clear, full update, incremental update, removal", Expect: []string{"executed"}},
 		Instance{Func: "H_clear_incr_clear_incr", Stratum: "sequence", Desc: "clear, incremental update, clear twice, incremental update", Expect: []string{"executed"}})
+	// after a model change the *SpecifiedEM entry points follow the new model
+	for m := 1; m <= 4; m++ {
+		for _, ep := range []struct{ id, call string }{
+			{"multi", "gp.ExecuteRulesWithMultiInputWithSpecifiedEM(data)"},
+			{"reqresp", "gp.ExecuteRulesWithSpecifiedEM(\"f0\", f[0], \"f1\", f[1])"},
+			{"selected", "gp.ExecuteSelectedWithSpecifiedEM(data, []string{\"r1\", \"r2\", \"r0\"})"},
+		} {
+			var oracle string
+			switch m {
+			case 1:
+				oracle = "\tcheckSorted(tr, n, allTrue(n), s, f, true, err)\n"
+			case 2:
+				oracle = "\tcheckTwoStage(tr, n, 3, 0, false, false, s, f, true, err)\n"
+			case 3:
+				oracle = "\tcheckTwoStage(tr, n, 1, 2, true, false, s, f, false, err)\n"
+			default:
+				oracle = "\tcheckTwoStage(tr, n, 2, 1, false, true, s, f, false, err)\n"
+			}
+			name := fmt.Sprintf("M_model%d_%s", m, ep.id)
+			inject := "\tdata := map[string]interface{}{\"f0\": f[0], \"f1\": f[1], \"f2\": f[2]}\n\t_ = data\n"
+			if ep.id == "reqresp" {
+				inject += "\tf[2] = false\n"
+			}
+			fmt.Fprintf(&b, "\n// executions follow model %d after SetExecModel (%s)\nfunc %s() {\n\tn := 3\n\ts := symSal(n)\n\tf := symFlags(\"f\", n)\n\tapis := map[string]interface{}{\"ev\": func(x string) { vnd.Event(x) }, \"one\": int64(1), \"zero\": int64(0), \"f2\": false}\n\tvnd.ExploreMapOrder(true)\n\tgp, e := NewGenginePool(1, 2, SortModel, rulesText(n, s), apis)\n\tvnd.ExploreMapOrder(false)\n\tzzMust(e, \"pool construction\")\n\tzzMust(gp.SetExecModel(%d), \"model change\")\n\tvnd.Assert(gp.GetExecModel() == %d, \"the model query answers the new model\")\n%s\terr, _ := %s\n\tvnd.Event(\"ret\")\n\tvnd.Quiesce()\n\tvnd.Reach(\"executed\")\n\ttr := vnd.Trace()\n%s}\n",
+				m, ep.id, name, m, m, inject, ep.call, oracle)
+			fam.Instances = append(fam.Instances, Instance{Func: name, Stratum: fmt.Sprintf("model/%d", m), Desc: fmt.Sprintf("executions follow model %d via %s", m, ep.id), Expect: []string{"executed"}})
+		}
+	}
 	finishPoolFamily(fam, "C16", b.String())
+	fam.Files[repoDir+"/engine/zz_vh_hlib.go"] = libFile("engine")
 	return fam, nil
 }
